@@ -346,8 +346,10 @@ func parsePESOptionalHeader(i *astikit.BytesIterator) (h *PESOptionalHeader, dat
 				err = fmt.Errorf("astits: fetching next byte failed: %w", err)
 				return
 			}
-			// TODO it's only a length of pack_header, should read it all. now it's wrong
 			h.PackField = uint8(b)
+
+			// The pack header itself is not parsed, the following fields start after it
+			i.Skip(int(h.PackField))
 		}
 
 		// Program packet sequence counter
